@@ -28,6 +28,8 @@ namespace osmium { namespace detail {
 #include <osmium/io/compression.hpp>
 #include <osmium/io/opl_input.hpp>
 #include <osmium/io/opl_output.hpp>
+#include <osmium/io/pbf_input.hpp>
+#include <osmium/io/pbf_output.hpp>
 #include <osmium/io/reader.hpp>
 #include <osmium/io/writer.hpp>
 #include <osmium/thread/pool.hpp>
@@ -72,7 +74,8 @@ public:
 
 struct Cfg {
     std::string fault; int pos; int pool; int q; int paced;
-    std::string name() const { std::ostringstream o; o << "fault=" << fault << "@" << pos << ",pool=" << pool << ",q=" << q << ",paced=" << paced; return o.str(); }
+    bool pbf = false;      // PBF instead of OPL: the producer encodes into primitive blocks, the pool workers serialise and compress them
+    std::string name() const { std::ostringstream o; o << "fault=" << fault << "@" << pos << ",pool=" << pool << ",q=" << q << ",paced=" << paced << (pbf ? ",pbf" : ""); return o.str(); }
 };
 
 // Paced producer: after each call the producer sleeps (timed wait on a private condition variable that nobody
@@ -89,7 +92,8 @@ void pause_producer() {
 }
 
 std::vector<Obj> g_objs;         // 2 nodes, 2 ways, 2 relations
-std::string g_ref;               // bytes the compressor receives in a fault-free run
+std::string g_ref;               // bytes the compressor receives in a fault-free run (OPL)
+std::string g_ref_pbf;           // ... PBF
 int g_ref_writes = 0;            // Compressor::write() calls of that run
 std::string g_dir;
 
@@ -121,7 +125,7 @@ Result drive(const Cfg& c) {
     if (c.fault == "close") g_mp.fail_close = true;
     if (c.fault == "ctor") g_mp.fail_ctor = true;
     const int bad_way = c.fault == "encoder" ? c.pos : -1;
-    const std::string path = g_dir + "/" + std::to_string(getpid()) + ".opl.gz";
+    const std::string path = g_dir + "/" + std::to_string(getpid()) + (c.pbf ? ".osm.pbf.gz" : ".opl.gz");
     Result r;
     {
         osmium::thread::Pool pool{c.pool, 0};
@@ -176,8 +180,8 @@ void body(const Cfg& c) {
     const bool not_reached = c.fault == "write" && !g_ms.failed;
     if (c.fault == "none" || not_reached) {
         if (r.threw_at != -1) vsched::fail("writer-sched/spurious-exception", std::string(step_name(r.threw_at)) + " threw: " + r.what);
-        else if (g_ms.data != g_ref) vsched::fail("writer-sched/output-differs-from-reference", std::to_string(g_ms.data.size()) + " bytes reached the compressor, reference has " + std::to_string(g_ref.size()));
-        else if (r.size != g_ref.size()) vsched::fail("writer-sched/close-returns-wrong-size", std::to_string(r.size) + " vs " + std::to_string(g_ref.size()));
+        else if (g_ms.data != (c.pbf ? g_ref_pbf : g_ref)) vsched::fail(std::string("writer-sched/output-differs-from-reference") + (c.pbf ? "/pbf" : ""), std::to_string(g_ms.data.size()) + " bytes reached the compressor, reference has " + std::to_string((c.pbf ? g_ref_pbf : g_ref).size()));
+        else if (r.size != (c.pbf ? g_ref_pbf : g_ref).size()) vsched::fail("writer-sched/close-returns-wrong-size", std::to_string(r.size) + " vs " + std::to_string((c.pbf ? g_ref_pbf : g_ref).size()));
         if (g_ms.closes < 1) vsched::fail("writer-sched/compressor-not-closed", "close() returned but Compressor::close() was never called");
     } else {
         if (r.threw_at == -1) vsched::fail("writer-sched/error-lost/" + tag, "the injected failure fired (compressor writes=" + std::to_string(g_ms.writes) + " closes=" + std::to_string(g_ms.closes) + ") but no call threw; close() returned " + std::to_string(r.size));
@@ -231,7 +235,30 @@ int main(int argc, char** argv) {
             fflush(stdout);
         }
     }
+    // PBF reference: fault-free run on real threads, decoded and compared with the abstract objects
+    {
+        Cfg c{"none", 0, 1, 20, 0}; c.pbf = true;
+        Result r = drive(c);
+        g_ref_pbf = g_ms.data;
+        std::vector<std::string> got, want;
+        for (auto& o : g_objs) want.push_back(osmdata::canon(o, true));
+        bool ok = r.threw_at == -1;
+        if (ok) {
+            try {
+                osmium::thread::Pool pool{1, 0};
+                osmium::io::Reader rd{osmium::io::File{g_ref_pbf.data(), g_ref_pbf.size(), "pbf"}, pool};
+                while (osmium::memory::Buffer b = rd.read()) for (const auto& o : b.select<osmium::OSMObject>()) got.push_back(osmdata::canon(o, true));
+                rd.close();
+            } catch (const std::exception&) { ok = false; }
+        }
+        if (!ok || got != want) {
+            printf("VIOL\twriter-sched/fault-free-reference-run-fails/pbf\treference run: %s; %zu objects decoded, %zu written\tfault=none@0,pool=1,q=20,pbf|-\n", r.threw_at == -1 ? "no exception" : r.what.c_str(), got.size(), want.size());
+            fflush(stdout);
+        }
+    }
     std::vector<Cfg> cfgs;
+    // PBF: the producer fills primitive blocks, pool workers serialise them - fault-free runs compared byte for byte, a write fault
+    for (int pool : {1, 2}) for (const char* f : {"none", "write"}) { Cfg c{f, 1, pool, 2, 0}; c.pbf = true; cfgs.push_back(c); }
     for (int paced : {0, 1}) for (int pool : {1, 2}) for (int q : {2, 20}) {
         if (q == 20 && !T && !(pool == 1 && paced == 1)) continue;      // quick: the large queue only with the paced producer
         cfgs.push_back(Cfg{"none", 0, pool, q, paced});
